@@ -20,7 +20,8 @@ import threading
 import common
 import lf_common as L
 
-THEOREMS = ["C14_persistent_map", "C14_get", "C14_update", "C14_add", "C14_discard", "C14_identity_seq",
+THEOREMS = ["C14_persistent_map", "C14_get", "C14_update", "C14_add", "C14_add_fault", "C14_add_fault_transparent",
+            "C14_add_fault_example", "C14_discard", "C14_identity_seq",
             "C14_identity_threads", "C14_pinned_get_refuted", "C14_split_add_refuted", "C14_example",
             "C14_threads_example", "C14_observer_during_write", "C14_observer_example"]
 
@@ -102,6 +103,77 @@ def build(kind, idn, v):
     o = L.make_object(kind, idn, 0)
     apply_variant(o, v)
     return o
+
+
+FAULT_POINTS = ["open", "write", "replace"]
+
+
+class refused_write:
+    """context manager: the file system refuses ONE step of a document write inside `directory` - point 0: opening a
+    file for writing, 1: the write() into it, 2: os.replace() onto a name in it - with OSError(ENOSPC).  `hit` tells
+    whether the fault was reached.  Reads and everything outside the directory are untouched."""
+
+    def __init__(self, directory, point):
+        self.root = os.path.realpath(directory)
+        self.point = FAULT_POINTS[point % len(FAULT_POINTS)]
+        self.hit = False
+
+    def inside(self, path):
+        try:
+            return os.path.realpath(os.path.dirname(os.path.abspath(os.fspath(path)))) == self.root
+        except TypeError:
+            return False
+
+    def err(self, path):
+        import errno
+        self.hit = True
+        return OSError(errno.ENOSPC, os.strerror(errno.ENOSPC), os.fspath(path))
+
+    def __enter__(self):
+        import builtins
+        self.saved = (builtins.open, os.replace)
+        real_open, real_replace = self.saved
+        me = self
+
+        class RefusingFile:
+            def __init__(self, f, name):
+                self.f, self.name = f, name
+
+            def __enter__(self):
+                self.f.__enter__()
+                return self
+
+            def __exit__(self, *a):
+                return self.f.__exit__(*a)
+
+            def write(self, data):
+                if not me.hit:
+                    raise me.err(self.name)
+                return self.f.write(data)
+
+            def __getattr__(self, n):
+                return getattr(self.f, n)
+
+        def f_open(file, mode="r", *a, **k):
+            if isinstance(file, (str, bytes, os.PathLike)) and any(c in mode for c in "wax+") and me.inside(file) \
+                    and not me.hit:
+                if me.point == "open":
+                    raise me.err(file)
+                if me.point == "write":
+                    return RefusingFile(real_open(file, mode, *a, **k), file)
+            return real_open(file, mode, *a, **k)
+
+        def f_replace(src, dst, *a, **k):
+            if me.point == "replace" and not me.hit and me.inside(dst):
+                raise me.err(dst)
+            return real_replace(src, dst, *a, **k)
+        builtins.open, os.replace = f_open, f_replace
+        return self
+
+    def __exit__(self, *a):
+        import builtins
+        builtins.open, os.replace = self.saved
+        return False
 
 
 class World:
@@ -214,6 +286,40 @@ class World:
             self.bound[x] = k
             if obj.source == "":
                 self.flag("add", "no-source", "added object has no source")
+            return [1, k, v]
+        if name == "AddFault":
+            # add() while the file system refuses the write at point p.  Oracle: an add() that raised has not added -
+            # the map, the object's binding and the instance's replicas are what they were (the checks after every
+            # step compare the directory, every live object's source and membership with them).
+            _, i, x, p = op
+            obj = self.live[x]
+            k, v, c = self.key_of(obj), self.tok(obj), L.canon(obj)
+            with refused_write(self.dir, p) as fault:
+                try:
+                    self.stores[i].add(obj)
+                except KeyError:
+                    if obj.id not in M:
+                        self.flag("add", "spurious-keyerror", "add of an id that is not stored raised KeyError")
+                    return [2, k]
+                except OSError as e:
+                    if not fault.hit:
+                        raise
+                    if obj.id in M:
+                        self.flag("add", "duplicate-reaches-write", "add of an id that is already stored got as far as "
+                                                                    "writing the document")
+                    if L.canon(obj) != c:
+                        self.flag("add", "refused-add-changed-object", "an add() refused by the file system changed the "
+                                                                       "object's content")
+                    return [13, k]
+            # the write did not pass the refused step (or swallowed the error): the add counts as done
+            if obj.id in M:
+                self.flag("add", "duplicate-accepted", "add of an id that is already stored succeeded")
+            if fault.hit:
+                self.flag("add", "write-error-swallowed", "the file system refused the write ({}) but add() returned "
+                                                          "normally".format(fault.point))
+            M[obj.id] = c
+            self.rep[(i, k)] = x
+            self.bound[x] = k
             return [1, k, v]
         if name == "Get":
             _, i, k = op
@@ -434,6 +540,13 @@ def gen_op(rng, w):
         # ... or the same id is retrieved / listed again right away (repeated retrievals with uncommitted local
         # modifications in between must come back refreshed)
         return rng.choice([("Get", i, last[0]), ("Get", i, last[0]), ("Iter", i), ("SetVal", last[1], rng.randrange(NVARIANTS))])
+    refused = getattr(w, "refused", None)
+    if refused is not None and refused in w.live and rng.random() < 0.3:
+        # the object of an add() the file system refused: the application goes on working with it, another object is
+        # stored under its id through either instance, the add is retried
+        kk = w.key_of(w.live[refused])
+        return rng.choice([("Commit", refused), ("Update", refused), ("SetVal", refused, rng.randrange(NVARIANTS)),
+                           ("Add", i, refused), ("Get", i, kk), ("New", kk, rng.randrange(NVARIANTS)), ("Iter", i)])
     stored = [k for k in range(NKEYS) if w.ids[k] in w.M]
     k = rng.choice(stored) if stored and rng.random() < 0.75 else rng.randrange(NKEYS)
     if not live or (r < 0.09 and len(live) < 7):
@@ -443,6 +556,8 @@ def gen_op(rng, w):
     x = rng.choice(live)
     xb = rng.choice(bound) if bound and rng.random() < 0.8 else x
     xu = rng.choice(unbound) if unbound and rng.random() < 0.7 else x
+    if r < 0.025:
+        return ("AddFault", i, xu, rng.randrange(len(FAULT_POINTS)))
     if r < 0.22:
         return ("Add", i, xu)
     if r < 0.44:
@@ -475,8 +590,8 @@ def run_history(idbase, ops=None, rng=None, n=0, dshape=0):
         done, trace = [], []
         for t in range(len(ops) if ops is not None else n):
             op = tuple(ops[t]) if ops is not None else gen_op(rng, w)
-            if op[0] in ("Add", "Discard", "SetVal", "Commit", "Update", "ClearSource", "Drop") and \
-                    (op[2] if op[0] in ("Add", "Discard") else op[1]) not in w.live:
+            if op[0] in ("Add", "AddFault", "Discard", "SetVal", "Commit", "Update", "ClearSource", "Drop") and \
+                    (op[2] if op[0] in ("Add", "AddFault", "Discard") else op[1]) not in w.live:
                 continue        # (only when replaying a shrunk history) the op names a dead object
             try:
                 with L.deadline(CALL_LIMIT):      # every step has its own time limit: a call that hangs is a failure
@@ -509,6 +624,8 @@ def run_history(idbase, ops=None, rng=None, n=0, dshape=0):
                 w.last = (out[1], out[2])
             elif op[0] == "Add" and out[0] == 1:
                 w.last = (out[1], op[2])
+            elif op[0] == "AddFault" and out[0] == 13:
+                w.refused = op[2]       # the generator comes back to the object of a refused add
             if w.fail and ops is None:
                 break
         return done, trace, (w.fail, len(done) - 1) if w.fail else None
@@ -902,6 +1019,14 @@ def directed_histories():
                             ("SetVal", 0, 1), ("Commit", 0), ("Update", 1)])
                 res.append([("New", k, 1), ("Add", i, 0), ("Reopen", i), ("Get", i, k), ("SetVal", 0, 5), ("Commit", 0),
                             ("Get", i, k), ("Update", 1), ("Discard", r, 1), ("Update", 0), ("Len", j)])
+                # an add() the file system refuses (at the open of the temporary file / the write / os.replace) leaves no
+                # trace: the object stays unbound, the id stays free for another object through either instance, and
+                # commit()/update() of the refused object do not reach that document; the retried add is a duplicate
+                p = (i + 2 * j + k) % len(FAULT_POINTS)
+                res.append([("New", k, 1), ("AddFault", i, 0, p), ("Update", 0), ("Len", r), ("New", k, 2), ("Add", j, 1),
+                            ("SetVal", 0, 4), ("Commit", 0), ("Get", r, k), ("Add", i, 0), ("Reopen", i), ("Get", i, k)])
+                res.append([("New", k, 3), ("AddFault", i, 0, p + 1), ("Add", j, 0), ("Get", r, k), ("New", k, 5),
+                            ("AddFault", r, 2, p + 2), ("Commit", 2), ("Update", 2), ("Get", i, k), ("Iter", j)])
     return res
 
 
@@ -949,7 +1074,8 @@ def run(chk):
         for o, t in zip(ops, trace):
             chk.count("op=" + o[0])
             chk.count("answer=" + {0: "none", 1: "added", 2: "duplicate-KeyError", 3: "object", 5: "missing-KeyError",
-                                   6: "bool", 7: "len", 8: "list", 9: "discarded", 10: "committed", 11: "updated"}
+                                   6: "bool", 7: "len", 8: "list", 9: "discarded", 10: "committed", 11: "updated",
+                                   13: "write-refused-OSError"}
                       .get(t[0][0], "other"))
         if fail and fail[0][0] not in shrunk:
             shrunk.add(fail[0][0])
@@ -1059,8 +1185,9 @@ def run(chk):
                        "(up to a trailing slash)"]
     return chk.finish(level="proof",
                       rule="directed scripts (rejected duplicate then commit/update of the rejected object, stale replicas, "
-                           "discard/re-open through the other instance) and seeded histories (6..20/28 steps) over 13 "
-                           "operations, 2 instances (one opened with a trailing slash) on a directory drawn from 10 shapes "
+                           "discard/re-open through the other instance, add() refused by the file system at the open of the "
+                           "temporary file / the write / os.replace and what follows) and seeded histories (6..20/28 steps) "
+                           "over 14 operations, 2 instances (one opened with a trailing slash) on a directory drawn from 10 shapes "
                            "(absolute/relative to the working directory; '#', '?', '%20', ';', ':', spaces, non-ASCII), 4 "
                            "identifiers drawn from 16 shapes (path separators, '..', non-ASCII, astral, line breaks, 2000 "
                            "chars), 4 payload classes x 6 contents, generated against the live state so that most steps "
